@@ -534,6 +534,22 @@ template <class T> struct XR
             f.byte_ff = true;
     }
 
+    // a burst written straight into the storage (as a DMA transfer would) and announced with set_last_index(index
+    // of its last element); needs room for all of it
+    void direct(const std::vector<T> &vals)
+    {
+        unsigned sz = size(), h = R->r.head;
+        for (size_t i = 0; i < vals.size(); i++)
+            R->buffer[(h + i) % sz] = vals[i];
+        int last_idx = (int)((h + vals.size() - 1) % sz);
+        c.log("direct(%zu values, set_last_index(%d)) ", vals.size(), last_idx);
+        R->set_last_index(last_idx);
+        for (T v : vals)
+            q.push_back(v);
+        if ((unsigned)last_idx == sz - 1)
+            f.wrapped = true;
+        check("set_last_index");
+    }
     // how: 0 push, 1 emplace, 2 head_place()=v + move_head_one  (all need room)
     void push(T v, int how)
     {
@@ -1054,6 +1070,54 @@ VP_TARGET("cyclic", t_cyclic,
           "cyclic_buffer<int>(n), n 2..40: history <= 200 of push (returned sample = the one overwritten) and "
           "operator[](i), i < min(pushed,n), against the last-n model; ring_counter_prev/last/fixup_pos/increment/set "
           "against modular arithmetic; non-trivial = more samples pushed than the buffer holds (counter wrapped)");
+
+void t_cxx_ring_direct(Src &s, Case &c)
+{
+    unsigned size = gen_size(s);
+    c.log("ring<int> size=%u, bursts written into the storage + set_last_index: ", size);
+    XR<int> X(c, false, size - 1);
+    X.check("construction");
+    int next = (int)s.range(-5, 1000);
+    bool hit_last = false;
+    for (unsigned i = 0; i < 80; i++)
+    {
+        unsigned o = (unsigned)s.below(8);
+        if (o == 0 && s.u8() == 0)
+            break;
+        unsigned room = (unsigned)X.room();
+        if (o < 2)
+        {
+            if (room)
+                X.push(next++, 0);
+        }
+        else if (o < 4)
+        {
+            if (!X.q.empty())
+                X.pop(0);
+        }
+        else if (room)
+        {
+            // o 4,5: any burst that fits; o 6,7: the burst that ends exactly in the last storage slot, when it fits
+            unsigned k = 1 + (unsigned)s.below(room);
+            unsigned to_last = (size - 1 - (unsigned)X.R->head_index()) + 1;
+            if (o >= 6 && to_last <= room)
+            {
+                k = to_last;
+                hit_last = true;
+            }
+            std::vector<int> vals;
+            for (unsigned j = 0; j < k; j++)
+                vals.push_back(next++);
+            X.direct(vals);
+        }
+    }
+    c.nontrivial = hit_last;
+    if (hit_last)
+        c.label("burst_ends_in_last_slot");
+}
+VP_TARGET("cxx_ring_direct", t_cxx_ring_direct,
+          "igris::ring<int>, size 2..40: push/pop mixed with bursts of 1..room values written straight into the storage and announced through "
+          "set_last_index (half of them ending exactly in the last slot); same reference and checks; non-trivial = a burst ended in the last slot");
 
 void t_cxx_ring_large(Src &s, Case &c)
 {
